@@ -51,6 +51,15 @@ def create_wrapper_call_site(ctx):
         for v in vals:
             if isinstance(v, ast.Name) and v.id in params or isinstance(v, ast.List) and v.elts and isinstance(v.elts[0], ast.Name):
                 continue      # one of create_wrapper's own parameters
+            used = sorted(set(x.id for x in ast.walk(v) if isinstance(x, ast.Name) and x.id in params))
+            if used:
+                # the command line hands the text of --outdir / --path / the file names to main_with_args as typed:
+                # create_wrapper must pass its parameters through, not a transformation of them
+                ctx.item("C14/create_wrapper/pass-through:args.%s" % attr, False,
+                         "create_wrapper sets args.%s = %s: its parameter %s is transformed, the command line passes the same "
+                         "text unchanged" % (attr, ast.unparse(v)[:70], "/".join(used)),
+                         confirm=lambda: ctx.monitor("m_options", "search", 40, ctx.seed), shape=True)
+                continue
             try:
                 val = ast.literal_eval(v)
             except Exception:
@@ -70,7 +79,7 @@ def run(ctx):
     ast_nodes.scope_wiring_items(ctx, REPO)
     # instantiating a class template keeps every enclosing scope (blocks) of its functions: ClassNode.clone, clone_scope_chain
     from contracts import ast_clone
-    eqv = ("m_equiv", lambda v: None, lambda nm: None, 110)
+    eqv = ("m_equiv", lambda v: None, lambda nm: None, 140)
     ctx.pyvc(ast_clone.UNITS, dict((u.name, eqv) for u in ast_clone.UNITS))
     try:
         from contracts import util_scope
@@ -101,7 +110,13 @@ def run(ctx):
         "assignment statement (fresh child scope of the container's scope)",
     ]
     if ctx.tier != "thorough":
-        r = ctx.monitor("m_equiv", "search", 110, ctx.seed)
+        r0 = ctx.monitor("m_options", "search", 40, ctx.seed)
+        ctx.bounded.append({"monitor": "m_options", "inputs_tried": r0["tried"], "violation": r0["violation"],
+                            "kind": "two-run relation on a small library: YAML option vs --option, --language, create_wrapper vs "
+                                    "command line (absolute and relative output directory)"})
+        if r0["violation"]:
+            ctx.violation("bounded/m_options", {"inputs": r0["inputs"], "observed": r0["violation"]}, True)
+        r = ctx.monitor("m_equiv", "search", 140, ctx.seed)
         ctx.bounded.append({"monitor": "m_equiv", "inputs_tried": r["tried"], "violation": r["violation"],
                             "kind": "two-run relations, deterministic core: empty blocks / container vs each function in every "
                                     "container kind, inline attributes vs attrs/fattrs"})
